@@ -519,3 +519,42 @@ def keep_alive_unpack_any(data: Bytes):
         fl = fss_len(raw_large_flag(data))
         any_common(data, o, fl)
         ensures("fields", both(g.directive_type == DirectiveType.KEEP_ALIVE_PDU, g.progress == from_be(data[hl + 1:hl + 1 + fl]), g.packet_len == n))
+
+
+# ------------------------------------------------------------------------------------------------------------------
+# C10: every strict prefix of a packed PDU is refused with a documented error.
+# For every header configuration this follows from clauses above: an accepted octet string holds the whole declared PDU
+# (<K>.unpack/any: buffer-holds-packet) and a packed PDU declares exactly its own length (<K>/pack-roundtrip: lengths, layout).
+# The direct statement is checked here for 1-octet header fields, every truncation point.
+# ------------------------------------------------------------------------------------------------------------------
+@obligation(["C10", "C06"], "directives/strict-prefix-refused",
+            verifies=[P + "eof:EofPdu.unpack", P + "ack:AckPdu.unpack", P + "prompt:PromptPdu.unpack", P + "keep_alive:KeepAlivePdu.unpack"])
+def strict_prefix_refused(kind: Choice(4, 6, 9, 12), mode: EnumOf(TransmissionMode), crc: EnumOf(CrcFlag), large: EnumOf(LargeFileFlag),
+                          src: IntRange(0, 255), seq: IntRange(0, 255), dst: IntRange(0, 255), cc: EnumOf(ConditionCode),
+                          checksum: BytesLen(4, 4), size: Int, wf: WF02, fid: Int, acked_finished: Bool, status: EnumOf(TransactionStatus),
+                          resp: EnumOf(ResponseRequired), k: IntRange(0, 40)):
+    requires(cc != ConditionCode.NO_CONDITION_FIELD)
+    requires(fid_ok(wf, fid))
+    requires(both(0 <= size, size < fss_max(large)))
+    conf = mk_conf(1, 1, src, seq, dst, mode, crc, large, Direction.TOWARDS_RECEIVER, SegmentationControl.NO_RECORD_BOUNDARIES_PRESERVATION)
+    if kind == 4:
+        raw = EofPdu(conf, checksum, size, mk_fault_location(wf, fid), cc).pack()
+        requires(k < len(raw))
+        o = outcome(EofPdu.unpack, raw[0:k])
+    elif kind == 6:
+        acked = DirectiveType.EOF_PDU
+        if acked_finished:
+            acked = DirectiveType.FINISHED_PDU
+        raw = AckPdu(conf, acked, cc, status).pack()
+        requires(k < len(raw))
+        o = outcome(AckPdu.unpack, raw[0:k])
+    elif kind == 9:
+        raw = PromptPdu(conf, resp).pack()
+        requires(k < len(raw))
+        o = outcome(PromptPdu.unpack, raw[0:k])
+    else:
+        raw = KeepAlivePdu(conf, size).pack()
+        requires(k < len(raw))
+        o = outcome(KeepAlivePdu.unpack, raw[0:k])
+    ensures("refused", not o.ok)
+    ensures("documented-error", o.raised(ValueError, InvalidCrc))
